@@ -96,12 +96,51 @@ var (
 	}
 )
 
+// cacheKey is a LOSSLESS rendering of the descriptor. (The JSON form is not: encoding/json replaces the bytes of
+// invalid UTF-8 in Tag/Key by U+FFFD, so two struct types whose keys differ only in such bytes shared one cache
+// entry and a check was handed a struct built for other keys - a false alarm of C01Decode in a thorough sweep.)
+func (td *TD) cacheKey() string {
+	var sb strings.Builder
+	td.writeKey(&sb)
+	return sb.String()
+}
+
+func (td *TD) writeKey(sb *strings.Builder) {
+	if td == nil {
+		sb.WriteString("<nil>")
+		return
+	}
+	sb.WriteString(td.K)
+	sb.WriteByte('(')
+	sb.WriteString(strconv.Itoa(td.N))
+	sb.WriteByte(',')
+	sb.WriteString(strconv.Quote(td.Name))
+	sb.WriteByte(',')
+	td.Elem.writeKey(sb)
+	for _, f := range td.Fields {
+		sb.WriteByte('{')
+		sb.WriteString(strconv.Quote(f.Name))
+		sb.WriteString(strconv.Quote(f.Tag))
+		sb.WriteString(strconv.Quote(f.Key))
+		for _, b := range []bool{f.Omit, f.List, f.OldList, f.Skip, f.Embedded} {
+			if b {
+				sb.WriteByte('1')
+			} else {
+				sb.WriteByte('0')
+			}
+		}
+		f.T.writeKey(sb)
+		sb.WriteByte('}')
+	}
+	sb.WriteByte(')')
+}
+
 // Type builds (and caches) the Go type.
 func (td *TD) Type() reflect.Type {
 	if t, ok := basic[td.K]; ok {
 		return t
 	}
-	key := td.String()
+	key := td.cacheKey()
 	if t, ok := typeCache.Load(key); ok {
 		return t.(reflect.Type)
 	}
